@@ -32,6 +32,14 @@ def fault_scenarios(rng, nbase, quick, pairs=False):
             s2.faults = {ci: k}
             s2.fault_type = len(out)        # the exception classes of proxies.BOOMS in turn
             out.append(s2)
+        # ... and faults in the other public methods of the imputer / storage objects (get_data, hooks): the first three
+        # invocations inside a call, whatever they are
+        aux = [(ci, k) for ci in range(len(counts)) for k in (1, 2, 3)]
+        for (ci, k) in (rng.sample(aux, 6) if quick and len(aux) > 6 else aux):
+            s2 = copy.copy(sc)
+            s2.aux_faults = {ci: k}
+            s2.fault_type = len(out)
+            out.append(s2)
         if pairs:
             for _ in range(10):
                 (c1, k1), (c2, k2) = rng.sample(positions, 2) if len(positions) >= 2 else (positions[0], positions[0])
